@@ -22,9 +22,19 @@ func IsIface(t int) bool { return t >= TIface && t < TSlice }
 
 func IsSliceT(t int) bool { return t >= TSlice }
 
+// curValMask: bit i set = universe position i is realised as the struct value
+// type V<i> instead of the pointer type *K<i> in the world that is currently
+// executing (Config.ValMask; set by NewWorld).
+var curValMask uint32
+
+func isVal(t int) bool { return t >= 0 && t < NumK && curValMask&(1<<uint(t)) != 0 }
+
 func TypeName(t int) string {
 	if IsSliceT(t) {
-		return fmt.Sprintf("[]*sim.K%d", t-TSlice)
+		return "[]" + TypeName(t-TSlice)
+	}
+	if isVal(t) {
+		return fmt.Sprintf("sim.V%d", t)
 	}
 	if IsIface(t) {
 		return fmt.Sprintf("sim.I%d", t-TIface)
@@ -126,7 +136,7 @@ type Func struct {
 	Callback   bool   `json:"callback,omitempty"`
 	Info       bool   `json:"info,omitempty"`
 
-	Salt  int64 `json:"salt,omitempty"`  // decides data-dependent stub behaviour (e.g. flatten lengths); survives renumbering
+	Salt  int64 `json:"salt,omitempty"`   // decides data-dependent stub behaviour (e.g. flatten lengths); survives renumbering
 	Cat   int   `json:"cat"`              // catalogue index, -1 for a dynamic stub
 	DurNs int64 `json:"dur_ns,omitempty"` // simulated time spent inside the body
 }
@@ -398,11 +408,12 @@ type Fault struct {
 }
 
 type Config struct {
-	Recover     bool  `json:"recover"`
-	Defer       bool  `json:"defer"`
-	DryRun      bool  `json:"dry_run"`
-	ShuffleSeed int64 `json:"shuffle_seed"`
-	PanicKind   int   `json:"panic_kind"` // 0 struct value, 1 error value, 2 string
+	Recover     bool   `json:"recover"`
+	Defer       bool   `json:"defer"`
+	DryRun      bool   `json:"dry_run"`
+	ShuffleSeed int64  `json:"shuffle_seed"`
+	PanicKind   int    `json:"panic_kind"`         // 0 struct value, 1 error value, 2 string
+	ValMask     uint32 `json:"val_mask,omitempty"` // universe positions realised as struct values V<i> (dynamic stubs only)
 }
 
 // History is everything a run depends on. It is the replay file.
@@ -439,6 +450,11 @@ func (h *History) NumScopes() int {
 
 func (h *History) Describe() []string {
 	var out []string
+	defer func(m uint32) { curValMask = m }(curValMask)
+	curValMask = h.Cfg.ValMask
+	if h.Cfg.ValMask != 0 {
+		out = append(out, fmt.Sprintf("struct-valued universe positions: mask %#x", h.Cfg.ValMask))
+	}
 	if h.Graph != nil {
 		out = append(out, fmt.Sprintf("IsAcyclic on digraph n=%d adjacency=%v", h.Graph.N, h.Graph.Edges))
 	}
